@@ -14,5 +14,5 @@ CONSTANTS
   MaxDepth = @DEPTH@
   TimerUnlocked = FALSE
   DevChoices = @DEV@
-INVARIANTS Emit PrefixInv Conservation EofFinal NoLostWakeup TimerCovers
+INVARIANTS Emit @INVS@
 CHECK_DEADLOCK FALSE
